@@ -14,6 +14,7 @@ import (
 	"sync"
 	"time"
 
+	"github.com/ansible/receptor/pkg/verifhook"
 	"github.com/fsnotify/fsnotify"
 	"github.com/rogpeppe/go-internal/lockedfile"
 )
@@ -119,6 +120,9 @@ func (bwu *BaseWorkUnit) Init(w *Workceptor, unitID string, workType string, fs 
 	bwu.lastUpdateErrorLock = &sync.RWMutex{}
 	bwu.ctx, bwu.cancel = context.WithCancel(w.ctx)
 	bwu.fs = fs
+	if watcher == nil {
+		watcher = verifWatcher()
+	}
 	if watcher != nil {
 		bwu.watcher = watcher
 	} else {
@@ -183,10 +187,12 @@ func (bwu *BaseWorkUnit) StdoutFileName() string {
 // lockStatusFile gains a lock on the status file.
 func (sfd *StatusFileData) lockStatusFile(filename string) (*lockedfile.File, error) {
 	lockFileName := filename + ".lock"
+	verifhook.At("lock.before", filename)
 	lockFile, err := lockedfile.OpenFile(lockFileName, os.O_CREATE|os.O_WRONLY|os.O_TRUNC, 0o600)
 	if err != nil {
 		return nil, err
 	}
+	verifhook.At("lock.acquired", filename)
 
 	return lockFile, nil
 }
@@ -196,6 +202,7 @@ func (sfd *StatusFileData) unlockStatusFile(filename string, lockFile *lockedfil
 	if err := lockFile.Close(); err != nil {
 		MainInstance.nc.GetLogger().Error("Error closing %s.lock: %s", filename, err)
 	}
+	verifhook.At("lock.released", filename)
 }
 
 // saveToFile saves status to an already-open file.
@@ -221,7 +228,9 @@ func (sfd *StatusFileData) Save(filename string) error {
 	if err != nil {
 		return err
 	}
+	verifhook.At("save.truncated", filename)
 	err = sfd.saveToFile(file)
+	verifhook.At("save.written", filename)
 	if err != nil {
 		serr := file.Close()
 
@@ -264,7 +273,9 @@ func (sfd *StatusFileData) Load(filename string) error {
 	if err != nil {
 		return err
 	}
+	verifhook.At("load.opened", filename)
 	err = sfd.loadFromFile(file)
+	verifhook.At("load.read", filename)
 	if err != nil {
 		lerr := file.Close()
 		if lerr != nil {
@@ -303,6 +314,7 @@ func (sfd *StatusFileData) UpdateFullStatus(filename string, statusFunc func(*St
 			MainInstance.nc.GetLogger().Error("Error closing %s: %s", filename, err)
 		}
 	}()
+	verifhook.At("update.opened", filename)
 	size, err := file.Seek(0, 2)
 	if err != nil {
 		return err
@@ -317,7 +329,11 @@ func (sfd *StatusFileData) UpdateFullStatus(filename string, statusFunc func(*St
 			return err
 		}
 	}
+	verifOldState, verifOldSize := sfd.State, sfd.StdoutSize
+	verifhook.At("update.read", filename)
 	statusFunc(sfd)
+	verifhook.ObserveStatus(filename, verifOldState, verifOldSize, sfd.State, sfd.StdoutSize)
+	verifhook.At("update.applied", filename)
 	_, err = file.Seek(0, 0)
 	if err != nil {
 		return err
@@ -326,7 +342,9 @@ func (sfd *StatusFileData) UpdateFullStatus(filename string, statusFunc func(*St
 	if err != nil {
 		return err
 	}
+	verifhook.At("update.truncated", filename)
 	err = sfd.saveToFile(file)
+	verifhook.At("update.written", filename)
 	if err != nil {
 		return err
 	}
